@@ -807,6 +807,7 @@ func runC18(cases string, res *Result) {
 	c18NestedInterfaceMaps(res)
 	c18OtherDialects(res)
 	c18TypedArgumentsAndNilEmbeds(res)
+	c18MethodsThatWrite(res)
 	var smoke []c18Seq
 	private := map[string]bool{"sort": true, "reverse": true, "merge": true, "keys": true, "split": true}
 	filters := (&twig.CoreExtension{}).GetFilters()
